@@ -22,6 +22,7 @@ import (
 	"encoding/base64"
 	"fmt"
 	"io"
+	"strings"
 
 	"encoding/xml"
 
@@ -479,7 +480,19 @@ func parseResponse(xml []byte, maxSize int64) (*etree.Document, *etree.Element, 
 	err := maybeDeflate(xml, maxSize, func(xml []byte) error {
 		doc = etree.NewDocument()
 		rawXML = xml
-		return doc.ReadFromBytes(xml)
+		if err := doc.ReadFromBytes(xml); err != nil {
+			return err
+		}
+		// Character data outside the root element is not well-formed XML, but Go's
+		// decoder tolerates it. Refuse it here: otherwise a DEFLATE stream made of
+		// stored blocks (whose block headers can be plain text) parses as a raw
+		// document with the headers left inside the message.
+		for _, tok := range doc.Child {
+			if cd, ok := tok.(*etree.CharData); ok && doc.Root() != nil && strings.TrimSpace(strings.TrimPrefix(cd.Data, "\ufeff")) != "" {
+				return fmt.Errorf("character data outside the root element")
+			}
+		}
+		return nil
 	})
 	if err != nil {
 		return nil, nil, err
